@@ -5,7 +5,7 @@ A check must stay silent: exit 1 (VIOLATION) is a false alarm, exit 2 (ANALYSIS-
 refactored code (brittle extraction).
 usage: run_refactors.py [--keep] [DIFF-or-ID ...]     (no args: every /verif/refactors/*/patch.diff)"""
 import json, os, shutil, subprocess, sys, tempfile, glob, concurrent.futures as cf
-ALL = [f'C{i:02d}' for i in range(1, 21)]
+ALL = os.environ['SA_CHECKS'].split(',') if os.environ.get('SA_CHECKS') else [f'C{i:02d}' for i in range(1, 21)]   # SA_CHECKS=C12,C18: only these
 args = [a for a in sys.argv[1:] if not a.startswith('--')]
 def one(path):
     if not os.path.exists(path):
@@ -27,7 +27,7 @@ def one(path):
         shutil.rmtree(td, ignore_errors=True)
 paths = args or sorted(glob.glob('/verif/refactors/*/patch.diff'))
 bad = 0
-with cf.ThreadPoolExecutor(max_workers=7) as ex:
+with cf.ThreadPoolExecutor(max_workers=int(os.environ.get('SA_WORKERS', '7'))) as ex:
     for path, res, err in ex.map(one, paths):
         if res is None:
             print(f'{path}: PATCH DOES NOT APPLY {err}'); bad += 1; continue
